@@ -1761,6 +1761,11 @@ class EntityTemplate(Block):
 
                     sig_root: Signal = sig._root
 
+                    if isinstance(sig_root, Port) and sig_root.is_input():
+                        raise AssertionError(
+                            f"output port '{name}' of entity instantiation '{block.name()}' drives the input port '{sig_root._name}'"
+                        )
+
                     if sig_root in written_in:
                         other = written_in[sig_root]
                         current_name = f"entity instantiation: {block.name()}"
